@@ -42,6 +42,7 @@ func genSec(g *Gen) {
 		return
 	}
 	genSecKeys(g)
+	genKsc(g) // C05: the byte-level codecs of what the symbolic model stores (engine ksc lines in the same stream)
 }
 
 const passAlphabet = "abcdefghijklmnopqrstuvwxyzABCDEFGHIJKLMNOPQRSTUVWXYZ0123456789@#$%^&"
